@@ -23,6 +23,7 @@ func init() {
 			"D3 sibling agreement of key orders: where pointer keys collected from a map are sorted by a comparator, no site orders a key type by a strict subset of the fields another site uses for the same type. " +
 			"D4 a comparator of keys taken from a map that compares a location's line also compares its file and column (sort.Slice closures and Less methods, accessors looked through). " +
 			"D5 a sort.Slice comparator that indexes a slice with its parameters indexes the slice being sorted. " +
+			"D1 (round 8) also: storing the accumulated slice into a field of the receiver makes every return a use (sort first); a returned freshly allocated value counts as loop-variant when a field of it was stored with a loop-variant value; LazyArgumentMap.ValidateInputs/ValidateOutputs are entry points. " +
 			"NOT decided: order dependence through pointer identity, whether a comparator is a total order on the values it meets (only the sibling contradiction is), stability of topoSort.",
 		Assumptions: commonAssumptions,
 	}
@@ -126,7 +127,7 @@ var c10Triage = map[string]triage{
 	"resolveDisableMap#range(v)#3":                     {"first-match-return", "reached only when every element is the BoolExp `true`; any element is an equivalent representative", nil},
 	"countForkParts#range(local:src.Source.Keys()@_)":  {"call(BindingPath),call(countForkParts)", "the loop sums per-key counts (commutative); the only shared-state effect in the callee chain is SourceList.Add, an idempotent set insertion whose slice order is never serialised (field tagged json:\"-\")", nil},
 	"makeForkIdParts#range(split.Source.Keys()@_)":     {"append", "`result` is sorted by key with sort.Slice before it is returned; `re` is only the backing array the result elements point into", sortAfterLoop},
-	"(ForkId).Match#range(ref)":                        {"first-match-panic", "at most one key equals src (pointer identity), so at most one iteration has an effect; the panic guards an internal invariant and is not an output", nil},
+	"(ForkId).Match#range(ref)":                        {"first-match-panic,first-match-return", "at most one key equals src (pointer identity: the body is guarded by s == src), so at most one iteration has an effect - the error returned for it names that one element; the panic guards an internal invariant and is not an output", nil},
 	"getUnknownKeys#range(v.(*MapExp)#0.Value)":        {"append", "the only caller, expandForkFromObj, sorts the returned slice in place (sort.Strings) before any fork id is built; part.Range shares that backing array and is only used for membership and length", callerSorts("(*Fork).expandForkFromObj")},
 	"getUnknownKeys#range(v.(MarshalerMap)#0)":         {"append", "see getUnknownKeys (MapExp arm)", callerSorts("(*Fork).expandForkFromObj")},
 	"getUnknownKeys#range(v.(LazyArgumentMap)#0)":      {"append", "see getUnknownKeys (MapExp arm)", callerSorts("(*Fork).expandForkFromObj")},
@@ -152,6 +153,11 @@ func c10Scope(c *an.Ctx) (map[*ssa.Function]bool, []string) {
 		add(pkgSyntax, n)
 	}
 	for _, n := range []string{"(*ForkIdSet).MakeForkIds", "(ForkId).ForkIdString", "(*Fork).expand", "(*Fork).writeInvocation", "BuildCallSource", "BuildCallAst"} {
+		add(pkgCore, n)
+	}
+	// the validation text written to _errors / _alarm for a stage's arguments and outputs (round 8:
+	// its "Missing ..." lines came out in map order); argument_map.go is one of the property's anchors
+	for _, n := range []string{"(LazyArgumentMap).ValidateInputs", "(LazyArgumentMap).ValidateOutputs"} {
 		add(pkgCore, n)
 	}
 	// `mro graph` renders the resolved call graph as text (round 7: its input trace printed in map order)
